@@ -45,6 +45,38 @@ fn small_value(r: &mut Rng, s: &Arc<Schema>, e: &Entry, cap: usize) -> (DynMsg, 
     (m, b)
 }
 
+/// every position of the type populated with something that owns memory: strings and byte strings too long for an inline
+/// representation, two elements per repeated field, one entry per map, the first member of every oneof, nested messages likewise
+/// (to `depth`; below it messages are left at their defaults)
+fn full_value(s: &Arc<Schema>, idx: usize, depth: usize, salt: &mut u64) -> DynMsg {
+    use crate::shared::sv::{Codec, SV};
+    use crate::shared::dynmsg::{DK, MapS};
+    fn scalar(c: Codec, salt: &mut u64) -> SV {
+        *salt += 1;
+        match c {
+            Codec::Bool => SV::Bool(true),
+            Codec::Float => SV::F32(0x3fc00000), Codec::Double => SV::F64(0x3ff8000000000000),
+            Codec::Str | Codec::FastStr | Codec::Bytes => SV::Bs(format!("owned-payload-{:03}-abcdefghijklmnopqrstuvwxyz", *salt % 1000).into_bytes()),
+            Codec::Uint32 | Codec::Uint64 | Codec::Fixed32 | Codec::Fixed64 => SV::Int(300 + (*salt % 50) as i128),
+            _ => SV::Int(-300 - (*salt % 50) as i128),
+        }
+    }
+    fn elem(s: &Arc<Schema>, ty: &FTy, depth: usize, salt: &mut u64) -> EVal {
+        match ty { FTy::Scalar(c) => EVal::S(scalar(*c, salt)), FTy::Msg(i) => EVal::Msg(if depth == 0 { DynMsg::new(s, *i, false) } else { full_value(s, *i, depth - 1, salt) }) }
+    }
+    let mut m = DynMsg::new(s, idx, false);
+    for (k, d) in s.decls(idx).iter().enumerate() {
+        m.slots[k] = match d {
+            Decl::Single { ty, opt: false, .. } => Slot::Req(elem(s, ty, depth, salt)),
+            Decl::Single { ty, opt: true, .. } => Slot::Some(elem(s, ty, depth, salt)),
+            Decl::Rep { ty, .. } => Slot::Rep(vec![elem(s, ty, depth, salt), elem(s, ty, depth, salt)]),
+            Decl::Map { k: kc, v, .. } => { let mut mm = MapS::new(false); mm.insert(DK(scalar(*kc, salt)), elem(s, v, depth, salt)); Slot::Map(mm) }
+            Decl::Oneof(vs) => match vs.first() { Some((t, ty)) => Slot::One(*t, elem(s, ty, depth, salt)), None => Slot::None },
+        };
+    }
+    m
+}
+
 pub fn gen(stream: &str, tier: &str, seed: u64, out: &mut dyn Write) -> bool {
     let thorough = tier == "thorough";
     let n = |q: usize, t: usize| if thorough { t } else { q };
@@ -56,7 +88,7 @@ pub fn gen(stream: &str, tier: &str, seed: u64, out: &mut dyn Write) -> bool {
             let reps = n(25, 500);
             for e in &tb.entries {
                 let s = tb.schema_of(e);
-                for k in 0..reps {
+                for k in 0..(if s.msgs.iter().map(|m| m.len()).sum::<usize>() > 100 { (reps / 8).max(2) } else { reps }) {
                     let m = if k == 0 { DynMsg::new(s, e.idx, false) } else { value(&mut r, s, e) };
                     cx.enc(e, &m);
                     cx.dec(e, &bytes_of(e, &m));
@@ -71,7 +103,7 @@ pub fn gen(stream: &str, tier: &str, seed: u64, out: &mut dyn Write) -> bool {
             for e in &tb.entries {
                 let s = tb.schema_of(e);
                 let ps = pschema_sexp(s);
-                for k in 0..reps {
+                for k in 0..(if s.msgs.iter().map(|m| m.len()).sum::<usize>() > 100 { (reps / 8).max(2) } else { reps }) {
                     let m = if k == 0 { DynMsg::new(s, e.idx, false) } else { value(&mut r, s, e) };
                     let canon = ref_encode(s, &m, &mut Choices { r: &mut r, canonical: true });
                     let _ = writeln!(cx.out, "pbespecchk {} {} {} {} {}", e.name, ps, e.idx, m_sexp(&m), hex(&canon));
@@ -84,6 +116,10 @@ pub fn gen(stream: &str, tier: &str, seed: u64, out: &mut dyn Write) -> bool {
                     let stale = crate::shared::refcodec::stale_prefix(s, &m, &mut r);
                     if !stale.is_empty() {
                         let _ = writeln!(cx.out, "pbedup {} {} {} {} {} oracle-only", e.name, ps, e.idx, m_sexp(&m), hex(&[stale, canon.clone()].concat()));
+                    }
+                    let (pre, suf) = crate::shared::refcodec::overridden_wrap(s, &m, &mut r);
+                    if !pre.is_empty() {
+                        let _ = writeln!(cx.out, "pbedup {} {} {} {} {} oracle-only", e.name, ps, e.idx, m_sexp(&m), hex(&[pre, canon.clone(), suf].concat()));
                     }
                     // the emitted encoder's own bytes must be in the relation (order fixed: no map with two entries)
                     if !multi_entry(&m) && (crate::shared::msgverbs::FLAG_ON || m_same(&norm_negzero(&m), &m)) {
@@ -101,6 +137,12 @@ pub fn gen(stream: &str, tier: &str, seed: u64, out: &mut dyn Write) -> bool {
                     let (_, b) = small_value(&mut r, s, e, n(160, 400));
                     if !b.is_empty() { let _ = writeln!(cx.out, "pbeleak {} {} oracle-only", e.name, hex(&b)); }
                 }
+                // ... and one value with every position populated by something that owns memory
+                let mut salt = 0u64;
+                for depth in [1usize, 2] {
+                    let b = bytes_of(e, &full_value(s, e.idx, depth, &mut salt));
+                    if !b.is_empty() && b.len() <= n(1500, 6000) { let _ = writeln!(cx.out, "pbeleak {} {} oracle-only", e.name, hex(&b)); }
+                }
             }
         }
         "C18e" => {
@@ -108,7 +150,7 @@ pub fn gen(stream: &str, tier: &str, seed: u64, out: &mut dyn Write) -> bool {
             let reps = n(24, 480);
             for e in &tb.entries {
                 let s = tb.schema_of(e);
-                for k in 0..reps {
+                for k in 0..(if s.msgs.iter().map(|m| m.len()).sum::<usize>() > 100 { (reps / 8).max(2) } else { reps }) {
                     let a = if k == 0 { DynMsg::new(s, e.idx, false) } else { value(&mut r, s, e) };
                     let mut b = if k == 1 { DynMsg::new(s, e.idx, false) } else { value(&mut r, s, e) };
                     if k > 1 && r.chance(1, 2) { crate::shared::msgverbs::align_oneofs(&mut r, s, &a, &mut b, 1); }
